@@ -120,11 +120,20 @@ type zzStream struct {
 	closes      int
 	outAtClose  int  // len(out) when Close was first called
 	writeClosed bool // a Write happened after Close
+	// deadlines as net.Conn defines them: a read that times out does so because the read deadline passed; a write
+	// deadline that is not later than that instant has then passed too and makes writes fail
+	rdl, wdl   time.Time
+	expired    time.Time
+	hasExpired bool
+	lateWrites int // writes refused because the write deadline had passed
 }
 
 func (s *zzStream) Read(p []byte) (int, error) {
 	if s.rpos >= len(s.in) {
 		if s.readErr != nil {
+			if ne, ok := s.readErr.(*zzNetErr); ok && ne.timeout && !s.rdl.IsZero() {
+				s.hasExpired, s.expired = true, s.rdl
+			}
 			return 0, s.readErr
 		}
 		return 0, io.EOF
@@ -138,6 +147,10 @@ func (s *zzStream) Write(p []byte) (int, error) {
 	if s.closed {
 		s.writeClosed = true
 		return 0, io.ErrClosedPipe
+	}
+	if s.hasExpired && !s.wdl.IsZero() && !s.wdl.After(s.expired) {
+		s.lateWrites++
+		return 0, &zzNetErr{timeout: true}
 	}
 	s.writes++
 	s.out = append(s.out, p...)
@@ -154,9 +167,9 @@ func (s *zzStream) Close() error {
 }
 func (s *zzStream) LocalAddr() net.Addr                { return zzAddr{} }
 func (s *zzStream) RemoteAddr() net.Addr               { return zzAddr{} }
-func (s *zzStream) SetDeadline(t time.Time) error      { return nil }
-func (s *zzStream) SetReadDeadline(t time.Time) error  { return nil }
-func (s *zzStream) SetWriteDeadline(t time.Time) error { return nil }
+func (s *zzStream) SetDeadline(t time.Time) error      { s.rdl, s.wdl = t, t; return nil }
+func (s *zzStream) SetReadDeadline(t time.Time) error  { s.rdl = t; return nil }
+func (s *zzStream) SetWriteDeadline(t time.Time) error { s.wdl = t; return nil }
 
 var _ net.Conn = (*zzStream)(nil)
 var _ DeadlineReadWriteCloser = (*zzStream)(nil)
